@@ -58,8 +58,10 @@ EXPLANATION = ("theorems: decimal print/read identity for all integers; every st
                "exporters write (backslash escapes: C/C++/Rust, doubled quote: Fortran, escaped double-quoted word: Bash); the bracket "
                "machine inverts the nested-list printer for all trees; typed initialiser round trip for C/C++ and Rust for every "
                "nested value of every kind; whole C, C++ and Rust files (guard/include frame, line splitting, const/constexpr/#define "
-               "and pub const lines) read back as the expected symbols for every parameter list and option; Bash files of scalars and "
-               "one-dimensional arrays read back as the expected variables; Fortran reshape with order=[k..1] undoes the row-major element list for every rectangular "
+               "and pub const lines) read back as the expected symbols for every parameter list and option; Bash files of any rank (scalars, indexed "
+               "and associative arrays) read back as the expected variables; Fortran modules of the kinds Fortran carries (explicit "
+               "guard excluding the three literal-kind / unsigned findings) read back as the expected symbols, the unguarded statement "
+               "is refuted; Fortran reshape with order=[k..1] undoes the row-major element list for every rectangular "
                "value of any rank (and the default order does not); type tables (regenerated from _parse_dtype and measured with the "
                "compilers) give same class/width/signedness except the listed lacking types; selection characterisation; rename "
                "non-injectivity; shaping; the exporter object as a model: every parse of any select/parse history returns the export of the "
